@@ -29,10 +29,13 @@ structure Cfg where
   exoDeg2rad : Bool
   /-- `_encode_scrip` repeats a face's last corner in the padding slots (as-is: indexes with FILL) -/
   scripPadLast : Bool
+  /-- the UGRID export of a Cartesian-only grid carries `node_lon`/`node_lat` (as-is: it names them
+      in the topology without having them) -/
+  ensureLonLat : Bool
 deriving Repr, DecidableEq
 
-def Cfg.asis : Cfg := ⟨false, false, false, false, false, false⟩
-def Cfg.repaired : Cfg := ⟨true, true, true, true, true, true⟩
+def Cfg.asis : Cfg := ⟨false, false, false, false, false, false, false⟩
+def Cfg.repaired : Cfg := ⟨true, true, true, true, true, true, true⟩
 
 /-! ## datasets as far as the encoders look at them -/
 
@@ -69,27 +72,42 @@ def Var.strip (v : Var) : Var := { v with attrs := v.attrs.filter keepAttr }
 /-- a variable can be written by `to_netcdf` -/
 def Var.serialisable (v : Var) : Bool := v.attrs.all (fun a => a.2.encodable)
 
-/-- The grid's dataset: the defining variables (`face_node_connectivity`, `node_lon`, `node_lat`)
-    with their payload, and whatever else has been materialised on the grid (`extras`: derived
-    connectivity, centres, areas, bounds, Cartesian coordinates … — any variables at all). -/
+/-- The grid's dataset: `face_node_connectivity` with its payload, the node positions (stored as
+    `node_lon`/`node_lat` when `lonlat`; a Cartesian-only source has them only as `node_x/y/z`
+    among the `extras` until the spherical ones are derived), and whatever else has been
+    materialised on the grid (`extras`: derived connectivity, centres, areas, bounds, Cartesian
+    coordinates … — any variables at all). -/
 structure Ds (P : Type) where
   table : Table
   nodes : List P
+  lonlat : Bool
   extras : List Var
 
-/-- the three defining variables as the conventions describe them -/
-def coreVars : List Var :=
+/-- `node_lon`, `node_lat` as the conventions describe them -/
+def lonlatVars : List Var :=
   [ ⟨"node_lon", ["n_node"], [("standard_name", .str), ("long name", .str), ("units", .str)]⟩,
-    ⟨"node_lat", ["n_node"], [("standard_name", .str), ("long name", .str), ("units", .str)]⟩,
-    ⟨"face_node_connectivity", ["n_face", "n_max_face_nodes"],
-      [("cf_role", .str), ("long name", .str), ("start_index", .num), ("_FillValue", .num)]⟩ ]
+    ⟨"node_lat", ["n_node"], [("standard_name", .str), ("long name", .str), ("units", .str)]⟩ ]
+
+def fncVar : Var :=
+  ⟨"face_node_connectivity", ["n_face", "n_max_face_nodes"],
+    [("cf_role", .str), ("long name", .str), ("start_index", .num), ("_FillValue", .num)]⟩
+
+/-- the three defining variables of a UGRID export -/
+def coreVars : List Var := lonlatVars ++ [fncVar]
 
 /-- `"grid_topology" in ds → ds.drop_vars(["grid_topology"])` -/
 def dropTopo (vs : List Var) : List Var := vs.filter (fun v => v.name != "grid_topology")
 
-def Ds.vars {P} (d : Ds P) : List Var := coreVars ++ dropTopo d.extras
+def Ds.vars {P} (d : Ds P) : List Var :=
+  (if d.lonlat then lonlatVars else []) ++ fncVar :: dropTopo d.extras
 def varNames (vs : List Var) : List String := vs.map (·.name)
 def varDims (vs : List Var) : List String := vs.flatMap (·.dims)
+
+/-- the variables of the export: (repaired) a dataset with `node_x` but without `node_lon` gets
+    `node_lon`/`node_lat` computed from the Cartesian coordinates -/
+def exportVars (cfg : Cfg) (vs : List Var) : List Var :=
+  if cfg.ensureLonLat && !(varNames vs).contains "node_lon" && (varNames vs).contains "node_x"
+  then vs ++ lonlatVars else vs
 
 /-! ## UGRID -/
 
@@ -125,8 +143,9 @@ structure UgridOut (P : Type) where
 def encodeUgrid {P} (cfg : Cfg) (tmpl : Topo) (d : Ds P) : UgridOut P × Topo :=
   let vs := d.vars
   let topo := topoOf tmpl vs
+  let out := exportVars cfg vs
   ({ table := d.table, nodes := d.nodes,
-     vars := if cfg.stripAttrs then vs.map Var.strip else vs,
+     vars := if cfg.stripAttrs then out.map Var.strip else out,
      topo := topo },
    if cfg.copyTemplate then tmpl else topo)
 
@@ -253,7 +272,7 @@ def encodeScrip {P} (cfg : Cfg) (t : Table) (nodes : List P) : Option (List (Lis
   t.mapM (fun r => r.mapM (fun x => getI? nodes (scripIdx cfg r x)))
 
 /-- `_read_scrip` / `_to_ugrid`: nodes = `np.unique` of all corners, faces = the inverse -/
-def decodeScrip {P} [DecidableEq P] [BEq P] (lt : P → P → Bool) (c : List (List P)) :
+def decodeScrip {P} [DecidableEq P] (lt : P → P → Bool) (c : List (List P)) :
     List P × Table :=
   let u := sortUniqBy lt c.flatten
   (u, c.map (·.map (rank u)))
@@ -267,7 +286,7 @@ def collapseRow (r : List Int) : List Int :=
     let m := (rest.takeWhile (· == a)).length
     r.take (r.length - m) ++ List.replicate m FILL
 
-def decodeScripCollapse {P} [DecidableEq P] [BEq P] (lt : P → P → Bool) (c : List (List P)) :
+def decodeScripCollapse {P} [DecidableEq P] (lt : P → P → Bool) (c : List (List P)) :
     List P × Table :=
   let (u, t) := decodeScrip lt c
   (u, t.map collapseRow)
@@ -304,8 +323,11 @@ inductive Out (P X : Type)
   | scrip (o : Option (List (List P)))
   | nothing
 
-/-- variables `_encode_scrip`'s caller materialises as a side effect (`self.face_areas`) -/
+/-- variables `_encode_scrip`'s caller materialises as a side effect (`self.node_lon`,
+    `self.node_lat`, `self.face_areas`; a name that is already there is not added twice by the
+    code — the model lists it again, which changes no set of names) -/
 def scripSideVars : List Var :=
+  lonlatVars ++
   [⟨"n_nodes_per_face", ["n_face"], [("cf_role", .str), ("long name", .str)]⟩,
    ⟨"face_areas", ["n_face"], [("cf_role", .str), ("long_name", .str)]⟩]
 
